@@ -16,9 +16,9 @@ CONSTANTS
   Hist = FALSE
 INIT Init
 NEXT Next
-VIEW view
 CONSTRAINT Bound
 CHECK_DEADLOCK FALSE
+VIEW view
 INVARIANT TypeOK
 INVARIANT InvAfterClose
 INVARIANT InvAllDoneAfterClose
